@@ -25,6 +25,39 @@ class Unsupported(Exception):
     pass
 
 
+class _Probed:
+    """placeholder for a value that was recorded as an IR probe instead of being computed"""
+
+    def __repr__(self):
+        return "PROBED"
+
+
+PROBED = _Probed()
+
+
+class LazyPart:
+    """real or imaginary part of a value that depends on holomorphic variables: it may only flow into the atan2 that
+    forms a phase (recorded as an IR probe of the complex value itself); any other use is non-holomorphic."""
+
+    def __init__(self, part, z):
+        self.part, self.z = part, z
+
+    def _bad(self, *a, **k):
+        raise qdom.NonHolomorphic(f"{self.part} part of a walker-dependent value used in arithmetic")
+
+    __add__ = __radd__ = __sub__ = __rsub__ = __mul__ = __rmul__ = __truediv__ = __rtruediv__ = __neg__ = __pow__ = _bad
+    __lt__ = __le__ = __gt__ = __ge__ = _bad
+
+
+def _where(e):
+    try:
+        from jax._src import source_info_util
+        fr = source_info_util.user_frames(e.source_info.traceback)
+        return f"{e.primitive.name} <- " + " <- ".join(f"{f.file_name.split('/')[-1]}:{f.start_line}({f.function_name})" for f in list(fr)[:4])
+    except Exception:
+        return e.primitive.name
+
+
 def trace(f, *args, **kw):
     return jax.make_jaxpr(f, **kw)(*args)
 
@@ -47,7 +80,7 @@ def n_eqns(jaxpr):
 
 
 STRUCT = {"reshape", "transpose", "slice", "squeeze", "broadcast_in_dim", "concatenate", "rev", "copy",
-          "copy_p", "expand_dims", "pad", "split"}
+          "copy_p", "expand_dims", "pad", "split", "stack", "unstack"}
 CALLS = {"jit", "pjit", "closed_call", "core_call", "remat", "checkpoint", "custom_jvp_call",
          "custom_vjp_call", "custom_vjp_call_jaxpr", "remat2"}
 CMP = {"eq": operator.eq, "ne": operator.ne, "lt": operator.lt, "gt": operator.gt, "le": operator.le,
@@ -140,7 +173,12 @@ class Interp:
                 continue
             ins = [read(v) for v in e.invars]
             sub_need = [o in needed for o in e.outvars]
-            outs = self.apply(e, ins, sub_need)
+            try:
+                outs = self.apply(e, ins, sub_need)
+            except Unsupported as ex:
+                if "  at " not in str(ex):
+                    raise Unsupported(f"{ex}  at {_where(e)} [{', '.join(str(v.aval) for v in e.invars)}] operand types {[type(a.reshape(-1)[0]).__name__ if a.size else None for a in ins]}") from None
+                raise
             if not e.primitive.multiple_results:
                 outs = [outs]
             for v, o in zip(e.outvars, outs):
@@ -152,6 +190,8 @@ class Interp:
                     o = o2
                 if o.shape != tuple(v.aval.shape):
                     raise Unsupported(f"{e.primitive.name}: shape {o.shape} != {v.aval.shape}")
+                if o.size and not isnum(v.aval.dtype) and not isinstance(o.reshape(-1)[0], (int, bool, SB, np.integer, np.bool_)):
+                    raise Unsupported(f"{e.primitive.name}: produced {type(o.reshape(-1)[0]).__name__} for dtype {v.aval.dtype} at {_where(e)}")
                 env[v] = o
         return [read(v) if (need is None or need[k]) else None for k, v in enumerate(jaxpr.outvars)]
 
@@ -241,14 +281,16 @@ class Interp:
         flat_out = out.reshape(-1)
         nupd = updates.size
         # for each update element u, scatter-add of a one-hot at u shows where it lands
-        prim = jax.lax.scatter_add_p
-        params = dict(p)
         for u in range(nupd):
             oh = np.zeros(updates.size, dtype=np.int64)
             oh[u] = 1
             with jax.ensure_compile_time_eval():
-                hit = np.asarray(prim.bind(jnp.zeros(operand.shape, dtype=jnp.int64), jnp.asarray(idx),
-                                           jnp.asarray(oh.reshape(updates.shape)), **params)).reshape(-1)
+                hit = np.asarray(jax.lax.scatter_add(jnp.zeros(operand.shape, dtype=jnp.int64), jnp.asarray(idx),
+                                                     jnp.asarray(oh.reshape(updates.shape)),
+                                                     dimension_numbers=p["dimension_numbers"],
+                                                     indices_are_sorted=p.get("indices_are_sorted", False),
+                                                     unique_indices=p.get("unique_indices", False),
+                                                     mode=p.get("mode"))).reshape(-1)
             for pos in np.nonzero(hit)[0]:
                 for _ in range(int(hit[pos])):
                     flat_out[pos] = comb(flat_out[pos], updates.reshape(-1)[u])
@@ -325,7 +367,11 @@ class Interp:
 
     def p_pow(self, e, ins, p):
         def f(a, b):
+            if hasattr(b, "_g_domain"):
+                b = b.const()
             b = Q.lift(b)
+            if hasattr(a, "_g_domain"):
+                return a ** b
             if b.isconst() and b.c[0] == Fraction(1, 2):
                 return self.sqrt1(a)
             if b.isconst() and b.c[0].denominator == 1:
@@ -385,6 +431,19 @@ class Interp:
         return vec(self._opq("acosh"), ins[0])
 
     def p_atan2(self, e, ins, p):
+        s0 = ins[0].reshape(-1)[0] if ins[0].size else None
+        s1 = ins[1].reshape(-1)[0] if ins[1].size else None
+        if isinstance(s0, LazyPart) or isinstance(s1, LazyPart):
+            def z_of(a, b):
+                if not (isinstance(a, LazyPart) and isinstance(b, LazyPart) and a.part == "im" and b.part == "re" and a.z is b.z):
+                    raise qdom.NonHolomorphic("atan2 of parts of different values")
+                return a.z
+            self.probes.setdefault("angle", []).append(vec(z_of, ins[0], ins[1]))
+            return vec(lambda a, b: PROBED, ins[0], ins[1])
+        if hasattr(s0, "_g_domain") or hasattr(ins[1].reshape(-1)[0] if ins[1].size else None, "_g_domain"):
+            # graded domain: the phase itself is not a series; record the operands (imag, real) as an IR probe
+            self.probes.setdefault("atan2", []).append((ins[0], ins[1]))
+            return vec(lambda a, b: PROBED, ins[0], ins[1])
         return vec(lambda a, b: qdom.opaque_fn("atan2", [Q.lift(a), Q.lift(b)], True), ins[0], ins[1])
 
     def p_abs(self, e, ins, p):
@@ -393,6 +452,9 @@ class Interp:
         return vec(lambda a: qdom.qabs(a), ins[0])
 
     def p_sign(self, e, ins, p):
+        if not isnum(e.outvars[0].aval.dtype):
+            return vec(lambda a: (a > 0) - (a < 0), ins[0])
+
         def f(a):
             a = Q.lift(a)
             if a.isconst():
@@ -411,11 +473,19 @@ class Interp:
             return vec(min, ins[0], ins[1])
         return vec(lambda a, b: self.ite(qdom.compare("le", a, b), a, b), ins[0], ins[1])
 
+    def _part(self, which):
+        def f(a):
+            try:
+                return a.real() if which == "re" else a.imag()
+            except qdom.NonHolomorphic:
+                return LazyPart(which, a)
+        return f
+
     def p_real(self, e, ins, p):
-        return vec(lambda a: a.real(), ins[0])
+        return vec(self._part("re"), ins[0])
 
     def p_imag(self, e, ins, p):
-        return vec(lambda a: a.imag(), ins[0])
+        return vec(self._part("im"), ins[0])
 
     def p_conj(self, e, ins, p):
         return vec(lambda a: a.conj(), ins[0])
@@ -626,11 +696,25 @@ class Interp:
             d = qdom.det(M)
             if isinstance(d, Q):
                 d = d.as_atom()
-            di = 1 / d
+            try:
+                di = 1 / d
+            except ZeroDivisionError:
+                raise Unsupported(f"inverse of a singular matrix {M} at {_where(e)}")
             A = qdom.adj(M)
             for i in range(n):
                 for j in range(n):
                     out[idx + (i, j)] = A[i][j] * di
+        return out
+
+    def p_sadj(self, e, ins, p):
+        a = ins[0]
+        out = obj(a.shape)
+        n = a.shape[-1]
+        for idx in np.ndindex(a.shape[:-2]):
+            A = qdom.adj(a[idx].tolist()) if n > 1 else [[self.num(1)]]
+            for i in range(n):
+                for j in range(n):
+                    out[idx + (i, j)] = A[i][j]
         return out
 
     def p_sexpm(self, e, ins, p):
